@@ -2,13 +2,14 @@ use crate::core::Engine;
 
 pub mod c01;
 pub mod c06;
+pub mod c07;
 pub mod c10;
 pub mod c14;
 pub mod c15;
 pub mod c17;
 
 pub fn all() -> Vec<&'static dyn Engine> {
-    vec![&c01::C01, &c06::C06, &c10::C10, &c14::C14, &c15::C15, &c17::C17]
+    vec![&c01::C01, &c06::C06, &c07::C07, &c10::C10, &c14::C14, &c15::C15, &c17::C17]
 }
 
 pub fn lookup(id: &str) -> Option<&'static dyn Engine> {
